@@ -33,6 +33,23 @@ type bstate struct {
 	m    *ref.ExpMap
 	keys [][]byte
 	cfg  cache.Config
+	buf  []byte // the caller's one key buffer: every key argument is passed in it, it is overwritten after the call
+}
+
+// arg returns key i in the caller's reusable buffer (as a caller that builds its keys in one scratch buffer
+// does); scribble overwrites the buffer once the call has returned.
+func (s *bstate) arg(i int) []byte {
+	if s.buf == nil {
+		s.buf = make([]byte, 256)
+	}
+
+	return s.buf[:copy(s.buf, s.keys[i])]
+}
+
+func (s *bstate) scribble() {
+	for i := range s.buf {
+		s.buf[i] = 0xEE
+	}
 }
 
 var c07Keys = [][]byte{
@@ -183,10 +200,17 @@ func (s *bstate) apply(o bop) (string, bool) {
 	now := vclock.NowQuiet()
 	obs := "ok"
 
+	var key []byte
+
+	switch o.kind {
+	case "write", "store", "read", "readskip", "load", "delete":
+		key = s.arg(o.key)
+	}
+
 	switch o.kind {
 	case "write", "store":
 		if o.kind == "store" {
-			s.b.Store(s.keys[o.key], o.val)
+			s.b.Store(key, o.val)
 			s.m.Write(string(s.keys[o.key]), o.val, 0, now)
 		} else {
 			wctx := ctx
@@ -194,7 +218,7 @@ func (s *bstate) apply(o bop) (string, bool) {
 				wctx = cache.WithTTL(ctx, o.ttl, false)
 			}
 
-			if err := s.b.Write(wctx, s.keys[o.key], o.val); err != nil {
+			if err := s.b.Write(wctx, key, o.val); err != nil {
 				return "Write failed: " + err.Error(), false
 			}
 
@@ -206,7 +230,7 @@ func (s *bstate) apply(o bop) (string, bool) {
 			rctx = cache.WithSkipRead(ctx)
 		}
 
-		v, err := s.b.Read(rctx, s.keys[o.key])
+		v, err := s.b.Read(rctx, key)
 		me, st, edge := s.m.Read(string(s.keys[o.key]), now, o.kind == "readskip")
 
 		var ok bool
@@ -214,7 +238,7 @@ func (s *bstate) apply(o bop) (string, bool) {
 			return obs, false
 		}
 	case "load":
-		v, found := s.b.Load(s.keys[o.key])
+		v, found := s.b.Load(key)
 		me, st, edge := s.m.Read(string(s.keys[o.key]), now, false)
 
 		want := st == ref.Hit
@@ -228,7 +252,7 @@ func (s *bstate) apply(o bop) (string, bool) {
 
 		obs = fmt.Sprint(found)
 	case "delete":
-		err := s.b.Delete(ctx, s.keys[o.key])
+		err := s.b.Delete(ctx, key)
 		existed := s.m.Delete(string(s.keys[o.key]))
 
 		switch {
@@ -251,7 +275,17 @@ func (s *bstate) apply(o bop) (string, bool) {
 		s.b.Cleanup()
 		removed := s.m.Cleanup(now, s.cfg.DeleteExpiredAfter)
 		obs = fmt.Sprintf("removed %d", len(removed))
+
+		// the limit check comes after the expired-items check: what is left is what counts (EvictFraction 1
+		// brings a count breach down to zero entries)
+		if s.cfg.CountSoftLimit > 0 && s.cfg.EvictFraction == 1 && uint64(len(s.m.M)) > s.cfg.CountSoftLimit {
+			s.m.DeleteAll()
+
+			obs += " + evicted all"
+		}
 	}
+
+	s.scribble()
 
 	// Real time always moves between two calls; one tick keeps "now == expiry" edges rare and explicit.
 	vclock.Advance(time.Nanosecond)
@@ -560,7 +594,7 @@ func init() {
 		Cells: c07Cells, Run: c07Run,
 		Rule: "explicit-state BFS over operation sequences (Write with default/+10s/-10s TTL, Read, Read under SkipRead, Delete, ExpireAll, DeleteAll, " +
 			"Load/Store, Advance 11s/6m) on keys {empty, 1 byte, 70 bytes, binary}; every transition calls the real backend and the reference map in lock-step and " +
-			"compares the return value, then Len and a full Walk; states are deduplicated on the canonical (key,value,expiry-now) set; " +
+			"every key argument is passed in one caller-owned buffer that is overwritten after the call returns; compares the return value, then Len and a full Walk; states are deduplicated on the canonical (key,value,expiry-now) set; " +
 			"an outcome is (operation class, observed result); plus cells with one key in EVERY shard (and two in the first and last) under every sequence of <=3 operations from {ExpireAll, DeleteAll, Advance 6m, Cleanup, rewrite all}",
 		Assumptions: []string{
 			"virtual clock: time moves only by Advance operations and by a 1ns tick after every call",
